@@ -4,6 +4,7 @@ import (
 	"fmt"
 	"go/token"
 	"go/types"
+	"os"
 	"sort"
 	"strings"
 
@@ -30,6 +31,8 @@ type encSeg struct {
 	Cond   string
 	Ins    ssa.Instruction
 	InLoop bool
+	Iter   bool // moved into a virtual per-iteration record: its end is spelled by its length, like that of a record built in a buffer of its own inside the loop
+	First  *LF  // position of the first element of a list written at a cursor (the cursor's entry value)
 }
 
 type family struct {
@@ -410,14 +413,143 @@ func (c *Ctx) encodeFamilies(fn *ssa.Function) *encFunc {
 		}
 	}
 	e.splitIterationRecords(loops)
+	e.splitCursorRecords(loops)
 	return e
+}
+
+// splitCursorRecords: a pre-sized buffer filled inside a loop at an integer cursor (offset += size per iteration,
+// or base + k*i with a counter i) carries one record per iteration at k*φ + base. The rows written relative to
+// the cursor are regrouped into a virtual family appended at that (variable) position - what
+//
+//	rec := make([]byte, size); PutUint32(rec, v); out = append(out, rec...)
+//
+// would have produced - so that the cursor and the append way of writing a list give the same tables.
+func (e *encFunc) splitCursorRecords(loops []*loopInfo) {
+	loopOf := func(b *ssa.BasicBlock) *loopInfo {
+		var best *loopInfo
+		for _, li := range loops {
+			if li.body[b] && (best == nil || len(li.body) < len(best.body)) {
+				best = li
+			}
+		}
+		return best
+	}
+	f := e.f
+	for _, fm := range append([]*family(nil), e.order...) {
+		type gkey struct {
+			ph *ssa.Phi
+			k  int64
+		}
+		groups := map[gkey][]int{}
+		var gorder []gkey
+		for i, r := range fm.Rows {
+			li := loopOf(r.Ins.Block())
+			if li == nil {
+				continue
+			}
+			for a, k := range r.Off.T {
+				ph, ok := f.atomDef(a).(*ssa.Phi)
+				if os.Getenv("IKELINT_DEBUG_CURSOR") != "" {
+					fmt.Fprintf(os.Stderr, "cursor: row %s atom %d def %v k %d loop header %v\n", f.Show(r.Off), a, f.atomDef(a), k, li.header)
+				}
+				if !ok || ph.Block() != li.header || k <= 0 {
+					continue
+				}
+				g := gkey{ph, k}
+				if _, seen := groups[g]; !seen {
+					gorder = append(gorder, g)
+				}
+				groups[g] = append(groups[g], i)
+				break
+			}
+		}
+		drop := map[int]bool{}
+		for _, g := range gorder {
+			li := loopOf(g.ph.Block())
+			// the cursor: one entry value, one back-edge value φ + step with a step that does not depend on φ
+			var init ssa.Value
+			okPhi := true
+			for i, ed := range g.ph.Edges {
+				if li.body[g.ph.Block().Preds[i]] {
+					bo, ok := ed.(*ssa.BinOp)
+					if !ok || bo.Op != token.ADD || bo.X != ssa.Value(g.ph) {
+						okPhi = false
+					} else if yi, isIns := bo.Y.(ssa.Instruction); isIns && li.body[yi.Block()] {
+						okPhi = false // the step is computed inside the loop
+					}
+					continue
+				}
+				if init != nil && init != ed {
+					okPhi = false
+				}
+				init = ed
+			}
+			if !okPhi || init == nil {
+				continue
+			}
+			phLF := f.LFOf(g.ph)
+			// base: the smallest cursor-relative offset among the rows; all others a constant distance behind it
+			var base LF
+			haveBase := false
+			okRows := true
+			for _, i := range groups[g] {
+				rest := fm.Rows[i].Off.add(phLF, -g.k)
+				if !haveBase {
+					base, haveBase = rest, true
+					continue
+				}
+				d := rest.add(base, -1)
+				if !d.isConst() {
+					okRows = false
+					break
+				}
+				if d.C < 0 {
+					base = rest
+				}
+			}
+			if !okRows {
+				continue
+			}
+			start := phLF.scale(g.k).add(base, 1)
+			V := &family{Root: g.ph, Name: "iter:" + g.ph.Name(), InitLen: konst(0), X: e.x, F: e.f, Fn: e.fn}
+			var first encRow
+			for n, i := range groups[g] {
+				r := fm.Rows[i]
+				if n == 0 {
+					first = r
+				}
+				r.Off = r.Off.add(start, -1)
+				V.Rows = append(V.Rows, r)
+				if end := r.Off.add(konst(int64(r.Octets)), 1); end.isConst() && V.InitLen.isConst() && end.C > V.InitLen.C {
+					V.InitLen = end
+				}
+				drop[i] = true
+			}
+			e.fams[g.ph] = V
+			e.order = append(e.order, V)
+			V.Parent, V.ParentAt = fm, start
+			firstAt := f.LFOf(init).scale(g.k).add(base, 1)
+			fm.Segs = append(fm.Segs, encSeg{At: start, Src: g.ph, Kind: "family", Fam: V, Cond: first.Cond, Ins: first.Ins, InLoop: true, First: &firstAt})
+		}
+		if len(drop) > 0 {
+			var keep []encRow
+			for i, r := range fm.Rows {
+				if !drop[i] {
+					keep = append(keep, r)
+				}
+			}
+			fm.Rows = keep
+		}
+	}
 }
 
 // splitIterationRecords: an accumulator that receives, in every iteration of a loop, a few explicit octets
 // (a record header written as append(out, b0, b1, b2, b3)) followed by further appends (the body) carries the
 // records themselves rather than a list of separately built record buffers. The octets and segments appended
 // in one iteration are regrouped into a virtual family - exactly what
-//     rec := []byte{b0, b1, b2, b3}; rec = append(rec, body...); out = append(out, rec...)
+//
+//	rec := []byte{b0, b1, b2, b3}; rec = append(rec, body...); out = append(out, rec...)
+//
 // would have produced - so that both ways of writing the encoder give the same tables.
 func (e *encFunc) splitIterationRecords(loops []*loopInfo) {
 	loopOf := func(b *ssa.BasicBlock) *loopInfo {
@@ -498,7 +630,7 @@ func (e *encFunc) splitIterationRecords(loops []*loopInfo) {
 			if sg.InLoop && loopOf(sg.Ins.Block()) == li && dominatesInstr(H.Ins, sg.Ins) {
 				d := sg.At.add(H.At, -1)
 				if lo, _ := e.f.bounds(d, nil); lo >= 0 {
-					sg.At, sg.InLoop = d, false
+					sg.At, sg.InLoop, sg.Iter = d, false, true
 					if sg.Kind == "family" && sg.Fam != nil && sg.Fam.Parent == fm {
 						sg.Fam.Parent, sg.Fam.ParentAt = V, d
 					}
@@ -781,6 +913,9 @@ func (c *Ctx) encodeTablesOf(fn *ssa.Function, st *slotTables, recvRecord string
 			if s.InLoop && !at.isConst() {
 				// position of the first element of a list: the lower bound of the accumulated length
 				blo, _ := f.bounds(at, nil)
+				if s.First != nil {
+					blo, _ = f.bounds(base[fm].add(*s.First, 1), nil)
+				}
 				lo = fmt.Sprintf("%d+", blo)
 			}
 			switch s.Kind {
@@ -789,7 +924,7 @@ func (c *Ctx) encodeTablesOf(fn *ssa.Function, st *slotTables, recvRecord string
 				his := c.symOffset(f, x, hi)
 				open := false
 				// the last thing appended to a record that is not in a loop ends the record
-				if isAppendCall(valueOf(s.Ins)) != nil && !s.InLoop && e.isFinalSeg(tfm, fm, s) {
+				if isAppendCall(valueOf(s.Ins)) != nil && !s.InLoop && !s.Iter && e.isFinalSeg(tfm, fm, s) {
 					his, open = "end", true
 				}
 				// copied into a pre-sized buffer up to its very end, and nothing is appended to that buffer
@@ -1156,7 +1291,6 @@ func (e *encFunc) isFinalSeg(tfm, fm *family, s encSeg) bool {
 	}
 	return true
 }
-
 
 // ownLenCall: the len(...) call whose value (through integer conversions) is what instruction ins writes.
 func ownLenCall(ins ssa.Instruction) ssa.Value {
